@@ -8,7 +8,28 @@ Nothing here knows an expected value.
 """
 from __future__ import annotations
 
+import contextlib
+import signal
+
 _CACHE = {}
+
+
+class Hang(BaseException):
+    """raised by the alarm: not an Exception, so the catch-alls below do not swallow it"""
+
+
+@contextlib.contextmanager
+def time_limit(seconds=20.0):
+    """the code under test may loop forever (a cursor that moves backwards): bound every stage that calls it"""
+    def on_alarm(signum, frame):
+        raise Hang()
+    old = signal.signal(signal.SIGALRM, on_alarm)
+    signal.setitimer(signal.ITIMER_REAL, seconds)
+    try:
+        yield
+    finally:
+        signal.setitimer(signal.ITIMER_REAL, 0)
+        signal.signal(signal.SIGALRM, old)
 
 
 def api():
@@ -111,6 +132,23 @@ def get_opcode(script, pc, vmin):
     if not ok:
         return {"res": "bad"}
     return {"res": "ok", "op": op, "data": None if data is None else bytes(data), "pc": npc}
+
+
+def walk(script, max_steps=100000):
+    """ScriptTools.get_opcodes over the whole script -> {"steps": [[pc, new_pc], ...]} | {"exc": name}
+    (stops by itself after max_steps or when the cursor does not advance, which is recorded as the last step)"""
+    steps = []
+    a = api()
+    try:
+        for opcode, data, pc, new_pc in a["st"].get_opcodes(script):
+            steps.append([pc, new_pc])
+            if new_pc <= pc or len(steps) >= max_steps:
+                break
+    except a["ScriptError"]:
+        return {"steps": steps, "stopped": "ScriptError"}     # a walker may stop with the library's own error
+    except Exception as e:      # noqa: BLE001
+        return {"exc": _exc(e), "steps": steps}
+    return {"steps": steps}
 
 
 def vm_run(script, minimaldata):
